@@ -218,6 +218,39 @@ func (c *c09) run(tape *kernel.Tape) {
 			return w.PostForm("/oauth/token", url.Values{"grant_type": {"authorization_code"}, "code": {tok}, "redirect_uri": {"https://web.sim/callback"}}, webBasic)
 		})
 	}
+	// hand-made JOSE headers over otherwise valid claims: members of the wrong JSON type, unknown critical members, embedded keys
+	validAccessDoc, _ := json.Marshal(validAccess)
+	validAssertDoc, _ := json.Marshal(validAssert)
+	for hi, hdr := range []string{`{"alg":%q,"typ":1}`, `{"alg":%q,"typ":true}`, `{"alg":%q,"typ":["JWT"]}`, `{"alg":%q,"typ":{"a":"JWT"}}`, `{"alg":%q,"typ":null,"kid":null}`,
+		`{"alg":%q,"kid":1}`, `{"alg":%q,"kid":["a"]}`, `{"alg":%q,"cty":7,"typ":"at+jwt"}`, `{"alg":%q,"crit":["exp"],"exp":1}`, `{"alg":%q,"crit":"exp"}`, `{"alg":%q,"jwk":"x"}`,
+		`{"alg":%q,"jwk":{"kty":"RSA"}}`, `{"alg":%q,"x5c":[1]}`, `{"alg":%q,"b64":false,"crit":["b64"]}`, `{"alg":1}`, `{"alg":[%q]}`, `{"alg":%q,"alg":"none"}`, `{"typ":"JWT"}`} {
+		if strings.Contains(hdr, "%q") {
+			hdr = fmt.Sprintf(hdr, string(key.Alg))
+		}
+		c.o.Probe("hand-made-jose-headers")
+		tok := b64(hdr) + "." + b64(string(validAccessDoc)) + "." + b64("not-a-signature")
+		atok := b64(strings.ReplaceAll(hdr, string(key.Alg), "RS256")) + "." + b64(string(validAssertDoc)) + "." + b64("not-a-signature")
+		n := fmt.Sprintf("token-header=%d", hi)
+		add(n+"@userinfo", func() *world.Resp { return bearerGet(w, "/userinfo", tok) })
+		add(n+"@introspect", func() *world.Resp { return w.PostForm("/oauth/introspect", url.Values{"token": {tok}}, webBasic) })
+		add(n+"@revoke", func() *world.Resp { return w.PostForm("/revoke", url.Values{"token": {tok}}, webBasic) })
+		add(n+"@end_session", func() *world.Resp { return rawGet(w, "/end_session?id_token_hint="+url.QueryEscape(tok)) })
+		add(n+"@authorize-hint", func() *world.Resp {
+			return rawGet(w, "/authorize?"+url.Values{"client_id": {"web"}, "redirect_uri": {"https://web.sim/callback"}, "response_type": {"code"}, "scope": {"openid"}, "id_token_hint": {tok}}.Encode())
+		})
+		add(n+"@exchange", func() *world.Resp {
+			return w.PostForm("/oauth/token", url.Values{"grant_type": {string(oidc.GrantTypeTokenExchange)}, "subject_token": {tok}, "subject_token_type": {string(oidc.AccessTokenType)}}, webBasic)
+		})
+		add(n+"@jwt-bearer", func() *world.Resp {
+			return w.PostForm("/oauth/token", url.Values{"grant_type": {string(oidc.GrantTypeBearer)}, "assertion": {atok}}, world.Creds{Mode: "none"})
+		})
+		add(n+"@client-assertion-introspect", func() *world.Resp {
+			return w.PostForm("/oauth/introspect", url.Values{"token": {s.tokens.AccessToken}}, world.Creds{Mode: "assertion", Assertion: atok})
+		})
+		add(n+"@request-object", func() *world.Resp {
+			return rawGet(w, "/authorize?"+url.Values{"client_id": {"jwt"}, "redirect_uri": {"https://jwt.sim/callback"}, "response_type": {"code"}, "scope": {"openid"}, "request": {atok}}.Encode())
+		})
+	}
 	// genuine tokens at the wrong place (opaque access token as exchange subject, refresh as access ...)
 	genuine := map[string]string{"access": s.tokens.AccessToken, "refresh": s.tokens.RefreshToken, "id": s.tokens.IDToken, "code": s.code}
 	for _, name := range kernel.SortedKeys(genuine) {
